@@ -213,6 +213,33 @@ def run(res):
                               {"fn": "floor", "k": k1, "n": n1, "d": d1, "history": [list(c) for c in chain[:j]]},
                               [0, sec, ps], [rc, s_out.value, p_out.value])
                 break
+    # ---- the index handed over as a numpy scalar (callers compute indices with numpy): the exact result, or a refusal
+    #      (TypeError / OverflowError) -- never the result for another index.  Indices above 2**53 are not exactly
+    #      representable in binary64, which is where a conversion through a double shows
+    import numpy as np
+    nform = 0
+    for (k, n, dd) in cal[:: max(1, len(cal) // (300 if res.tier == "quick" else 5000))] + \
+            [(2 ** 53 + 1, 10 ** 9, 1), (1700000000 * 10 ** 9 + 1, 10 ** 9, 1), (2 ** 62 + 3, 2 ** 32 - 1, 1)]:
+        if not (0 <= k < 2 ** 63 and k * dd // n < Y9999):
+            continue
+        sec, ps = k * dd // n, ((k * dd) % n) * PS // n
+        spec = [0] + civil(sec) + [ps]
+        for mk in (np.uint64, np.int64):
+            nform += 1
+            try:
+                dt, ips = digital_rf.get_unix_time(mk(k), n, dd)
+                impl = [0, dt.year, dt.month, dt.day, dt.hour, dt.minute, dt.second, ips]
+            except (TypeError, OverflowError):
+                res.count("numpy-index-form:refused")
+                continue
+            except Exception as e:  # noqa
+                impl = ["exc", repr(e)]
+            res.case(("unix-numpy", k, n, dd, mk.__name__))
+            res.count("numpy-index-form:converted")
+            if impl != spec:
+                res.violation("unix-time-numpy-index", "get_unix_time given the index as a numpy integer scalar returns the time of "
+                              "another index", {"fn": "unix", "k": k, "n": n, "d": dd, "index_type": mk.__name__}, spec, impl)
+                break
     # ---- guard the extraction: a sample evaluated by vm_compute inside Coq
     sub = [cases[i] for i in range(0, len(cases), max(1, len(cases) // 150))][:150]
     exprs = ["(let '(rc, s, p) := digital_rf_get_timestamp_floor (%d) (%d) (%d) in [rc; s; p])" % c for c in sub]
@@ -238,7 +265,12 @@ def replay(res, rp):
         for (k, n, dd) in i.get("history") or []:
             digital_rf.get_unix_time(k, n, dd)
         k, n, dd = i["k"], i["n"], i["d"]
+        if i.get("index_type"):
+            import numpy as np
+            print("index passed as", i["index_type"])
+            k = getattr(np, i["index_type"])(k)
         dt, ips = digital_rf.get_unix_time(k, n, dd)
+        k = int(k)
         got = [0, dt.year, dt.month, dt.day, dt.hour, dt.minute, dt.second, ips]
         want = [0] + civil(k * dd // n) + [((k * dd) % n) * PS // n]
         print("get_unix_time(%d, %d, %d) after %d earlier calls -> %s; exact value %s" % (k, n, dd, len(i.get("history") or []), got, want))
